@@ -19,7 +19,7 @@
 From LP Require Import Proofs.Tactics Proofs.LedgerBase Proofs.Gates Proofs.Frames Proofs.Settle Proofs.Confirm Proofs.Ledger
   Proofs.ClaimLedger Proofs.Loop Proofs.Resume Proofs.FisherYates Proofs.Shuffle Proofs.Rng Proofs.Filter Proofs.Partition
   Proofs.Resume3 Proofs.GuaranteedLoop Proofs.Leftover Proofs.Lifecycle Proofs.Interleave Proofs.InterleaveGt Proofs.LifecycleNoisy Proofs.Setup Proofs.SetupPrice
-  Proofs.SetupGt Proofs.Examples.
+  Proofs.SetupGt Proofs.SetupNft Proofs.Examples.
 Open Scope N_scope.
 
 Theorem C01_confirm_keeps_solvency : forall (H : list N -> list N) v e b sd w n w' r A,
@@ -340,6 +340,23 @@ Example C01_nonvacuous :
   bal wend 0 0 0 = 0 /\ bal wend 0 1 0 = 0.
 Proof. vm_compute. repeat split. Qed.
 
+(** launchpad-with-nft from its deployment (fee asset different from the payment token): allocation,
+    deposit, ticket and fee confirmations, blacklisting (both refunds), pause and configuration
+    transactions in any order, then the three stages *)
+Theorem C01_from_deployment_nft : forall (H : list N -> list N) w0 lf wf ef bf w1 ls ws es bs w2 sd rest ln wn en bn w3,
+  setup_reach_nft H w0 ->
+  after_interrupted filter_tickets lf w0 = Some wf -> filter_tickets ef bf wf = Ok (w1, 0) ->
+  seeds w1 = sd :: rest ->
+  after_interrupted (select_winners H) ls w1 = Some ws -> select_winners H es bs ws = Ok (w2, 0) ->
+  after_interrupted (select_nft_winners_endpoint H) ln w2 = Some wn ->
+  select_nft_winners_endpoint H en bn wn = Ok (w3, 0) ->
+  exists l : list (N * N),
+    ClaimInv w3 (map fst l) /\ status (st w3) = status (st w2) /\ nr_winning (st w3) = nr_winning (st w2).
+Proof. exact deployed_pipeline_nft. Qed.
+
+Example C01_setup_nft_nonvacuous : setup_reach_nft sha256 nft_confirmed.
+Proof. exact (proj1 nft_confirmed_reachable). Qed.
+
 Print Assumptions C01_confirm_keeps_solvency.
 Print Assumptions C01_blacklist_keeps_solvency.
 Print Assumptions C01_frame.
@@ -368,6 +385,8 @@ Print Assumptions C01_setup_nonvacuous.
 Print Assumptions C01_from_deployment_gt.
 Print Assumptions C01_setup_gt_nonvacuous.
 Print Assumptions C01_setup_gt_blacklist_nonvacuous.
+Print Assumptions C01_from_deployment_nft.
+Print Assumptions C01_setup_nft_nonvacuous.
 Print Assumptions C01_pipeline_nonvacuous.
 Print Assumptions C01_claim_nonvacuous.
 Print Assumptions C01_nonvacuous.
